@@ -49,10 +49,11 @@ func genCase(t *rapid.T) Case {
 		c.Uses = append(c.Uses, u)
 	}
 	short := rapid.Bool().Draw(t, "short")
+	rawStrings := rapid.Bool().Draw(t, "rawstrings")
 	var file strings.Builder
 	file.WriteString(rapid.SampledFrom([]string{"", "\n", "; leading comment\n", "\r\n", ";; $MODULE fake\n", "  "}).Draw(t, "lead"))
 	for i, f := range c.Forms {
-		txt, _ := gen.Layout(t, gen.Tokens(f, short))
+		txt, _ := gen.Layout(t, gen.TokensRaw(f, short, rawStrings))
 		// text handed to READ / REPL may start with blank lines and comments, also preamble-looking ones
 		txt = rapid.SampledFrom([]string{"", "", "", "\n", "  ", "; c\n", ";; $x 1\n", ";; $Id: prog.lisp 42 $\n", ";; $a $b\n\n", "\r\n", ";;\n"}).Draw(t, "formlead") + txt
 		c.Laid = append(c.Laid, txt)
